@@ -55,6 +55,7 @@ def problem_pairs(prog, report):
 def run(prog, report, tier):
     signs.check_signs(prog, report)
     signs.check_driver_index(prog, report)
+    signs.check_residual_ranks(prog, report)
     indexing.check_bilform_matrix(prog, report)
     causal.run_prefilters(prog, report)
     causal.run_sites(prog, report, which=('sound', 'complete'),
